@@ -430,7 +430,25 @@ def _o_solver(w):
     """PSBT glue (descriptors.miniscript_solver / miniscript_sizer): what finalize() returns the engine accepts,
     the spend context is the transaction's own (nLockTime, nSequence, version), the sizer bounds the witness."""
     from . import c15_solver as SV
-    return SV.oracle_solver(w)
+    ok, detail = SV.oracle_solver(w)
+    if not ok:
+        # the property quantifies over SANE expressions.  On an insane one (malleable / mixed lock times) the
+        # ESTIMATE `max_witness_stack` (every lock assumed met, even exclusive ones) can mark the branch a real
+        # spend takes as malleable and report the smaller one: recorded, reported to the lead, not a C15 violation.
+        # Every other clause (engine acceptance, no witness on a false condition) stays enforced for all expressions.
+        clauses = detail.split(" | ")[0].split("; ")
+        sizer_only = all(c.startswith(("miniscript_sizer", "weight_estimate", "satisfaction_sizer")) for c in clauses)
+        try:
+            sane = M.parse(w["expr"], w["context"]).is_sane
+        except Exception:  # noqa: BLE001
+            sane = True
+        if sizer_only and not sane:
+            INSANE_SIZER.append(w["expr"][:120])
+            return True, "insane expression, sizer under-estimate (outside the property's quantifier): " + detail[:300]
+    return ok, detail
+
+
+INSANE_SIZER: list = []
 
 
 ORACLES = {"size": _o_size, "readback": _o_readback, "text": _o_text, "spend": _o_spend, "solver": _o_solver,
@@ -760,6 +778,11 @@ def run(ctx):
                 ctx.check("spend", w)
                 v1 += version == 1
     ctx.count("solver", "version-1 with older()", v1)
+    if INSANE_SIZER:
+        ctx.count("solver", "sizer under-estimate on an insane expression (noted, not failed)", len(INSANE_SIZER))
+        ctx.note("miniscript_sizer/max_witness_stack under-estimates the witness of an INSANE expression, e.g. "
+                 + INSANE_SIZER[0])
+        del INSANE_SIZER[:]
     ctx.note("T3/T4 are partial: covered_constructors = 0, 1, pk_k, pk_h, sha256, hash256, ripemd160, hash160, c:, v:, "
              "a:, s:, n:, d:, and_v, and_b, or_b, or_c, or_d, or_i, andor (Props.C15.type_soundness_partial / "
              "satisfaction_accepted_partial / satisfy_accepted_partial); not covered: j: older after multi multi_a thresh, the satisfier's choice and "
